@@ -6,7 +6,7 @@
     [repaired] / [repaired_except_pinned] / the pinned defect: see Properties_C05.v.  [mtag_ok], [mtag_index_ok]
     are the domain of the statement (decidable, checked by the extracted oracle). *)
 From Coq Require Import ZArith Bool String List.
-Require NixV.Gen.GenAccess NixV.Access.AccessBridgeModels.
+Require NixV.Gen.GenAccess NixV.Access.AccessBridgeModels NixV.Gen.GenPairs NixV.Axis.PairBridge NixV.Axis.RangeModel.
 Require Import NixV.Base.Prelude NixV.Base.F64 NixV.Gen.GenDimensions.
 Require Import NixV.Access.Retrieval NixV.Access.RetrievalSpec NixV.Access.RetrievalAxis NixV.Access.RetrievalDomain
                NixV.Access.RetrievalAssemble NixV.Access.RetrievalTag NixV.Access.RetrievalMTag
@@ -152,6 +152,18 @@ Theorem C06_window_test_is_generated : forall shape position count, (List.length
   = Ok (Retrieval.positionAndExtentInData shape position count).
 Proof. exact NixV.Access.AccessBridgeModels.retrieval_extent_test_is_generated. Qed.
 Print Assumptions C06_window_test_is_generated.
+
+(** The start/end pair conversion of every dimension kind is the code regenerated from src/Dimensions.cpp on this run *)
+Theorem C06_pair_conversion_is_generated : forall d m s e,
+  Retrieval.indexOf_pair d m s e =
+  match d with
+  | Retrieval.DSampled dt off _ => NixV.Gen.GenPairs.sampled_pair s e dt (Retrieval.offset_or_zero off) m
+  | Retrieval.DRange ticks _ => NixV.Axis.PairBridge.pair_rule (fun p r => NixV.Axis.RangeModel.getIndex p ticks r) true m s e
+  | Retrieval.DSet n => NixV.Axis.PairBridge.pair_rule (fun p r => getSetIndex p (Retrieval.labels_of n) r) false m s e
+  | Retrieval.DFrame n => NixV.Gen.GenPairs.df_pair s e n m
+  end.
+Proof. exact NixV.Axis.PairBridge.retrieval_pair_is_generated. Qed.
+Print Assumptions C06_pair_conversion_is_generated.
 
 (** OPEN OBLIGATION while the defects of DESIGN section 9 items 4, 19, 28, 31 are in the tree (see Properties_C05.v) *)
 Theorem current_is_repaired : current_behaviour = repaired_except_pinned.
